@@ -5,6 +5,11 @@ Ops (driver side in lean/NetaddrVerif/Driver/C01.lean):
   ip_parse be S ver flags · ip_print be F V dialect · valid4 be S flags · valid6 be S ·
   fb_pton F S · fb_ntop F V · ip_repr be F V (repr + parse of its quoted part) ·
   zf_rewrite S (platform-style: the ZEROFILL rewrite '.'.join('%d' % int(p) for p in S.split('.')) against CPython)
+  raw-exception model (Model/AddrRaw.lean): ip_parse_raw be4 be6 S ver flags (the two back-end switches apart:
+  be4 = fb imports netaddr with sys.platform='win32' only, be6 = fb with socket.has_ipv6=False only) ·
+  s2i_raw F be S flags (strategy.ipv4/ipv6.str_to_int, value or the class raised) · raw_call fn be S with fn in
+  aton|pton4|pton6|int (the very callables the strategy modules bound at import: value / raised below Exception / raised outside it) ·
+  ip_format be6 F V D (IPAddress.format; D = - | compact | full | verbose | nowf | wfonly)
 be = pl (netaddr as imported here: platform socket functions) | fb (netaddr imported in a
 dedicated subprocess with sys.platform='win32' and socket.has_ipv6=False, so that
 strategy.ipv4/ipv6 bind netaddr.fbsocket; /repo is not touched)."""
@@ -168,6 +173,57 @@ def run_real(netaddr, a):
         except Exception as e:
             r = '!' + _errname(netaddr, e)
         return _hexs(s) + ' ' + r
+    if op == 'parse_raw':
+        _, be4, be6, s, ver, flags = a
+        try:
+            ip = netaddr.IPAddress(s, ver, flags)
+            return '%d %d' % (ip.version, int(ip))
+        except BaseException as e:
+            return '!' + _errname(netaddr, e)
+    if op == 's2i_raw':
+        _, fam, be, s, flags = a
+        mod = netaddr.strategy.ipv4 if fam == 4 else netaddr.strategy.ipv6
+        try:
+            return str(mod.str_to_int(s, flags))
+        except BaseException as e:
+            return '!' + _errname(netaddr, e)
+    if op == 'raw_call':
+        # the callables the strategy modules bound at import (under their present private names; if a name
+        # is gone, the function the back-end choice stands for).  Only "value / raised something below
+        # Exception / raised something else" is reported: which class the platform raises is not a clause
+        # of the property, and it is all the theorems ask of a platform (RawPlatform.Sane).
+        _, fn, be, s = a
+        import socket
+        from netaddr import fbsocket
+        from netaddr.strategy import ipv4 as m4, ipv6 as m6
+        src = fbsocket if be == 'fb' else socket
+        try:
+            if fn == 'aton':
+                return str(int.from_bytes(getattr(m4, '_inet_aton', socket.inet_aton)(s), 'big'))
+            if fn == 'pton4':
+                return str(int.from_bytes(getattr(m4, '_inet_pton', src.inet_pton)(getattr(m4, 'AF_INET', src.AF_INET), s), 'big'))
+            if fn == 'pton6':
+                return str(int.from_bytes(getattr(m6, '_inet_pton', src.inet_pton)(getattr(m6, 'AF_INET6', src.AF_INET6), s), 'big'))
+            if fn == 'int':
+                return str(int(s))
+        except BaseException as e:
+            return '!exception' if isinstance(e, Exception) else '!base'
+    if op == 'format':
+        _, be6, ver, v, d, k = a
+        ip = _mk_addr(netaddr, ver, v)
+        if d is None:
+            arg = None
+        elif d == 'nowf':
+            arg = (object, 'ipv6_full', 5, object(), type('Plain', (), {'compact': False}), netaddr.IPAddress)[k % 6]
+        elif d == 'wfonly':
+            arg = (netaddr.mac_unix, netaddr.mac_eui48, type('W', (), {'word_fmt': '%x'}), netaddr.mac_cisco)[k % 4]
+        else:
+            base = _dialect(netaddr, d)
+            arg = base if k % 2 == 0 else type('Sub', (base,), {})
+        try:
+            return _hexs(ip.format(arg))
+        except BaseException as e:
+            return '!' + _errname(netaddr, e)
     raise ValueError(a)
 '''
 _ns = {}
@@ -177,6 +233,7 @@ run_real = _ns['run_real']
 WORKER_SRC = r'''
 import sys, json
 repo = sys.argv[1]
+mode = sys.argv[2]          # fb = both switches, fb4 = IPv4 switch only, fb6 = IPv6 switch only
 if repo:
     sys.path.insert(0, repo)
 import socket
@@ -184,8 +241,10 @@ import netaddr                      # first import: pulls in every stdlib module
 for k in [k for k in sys.modules if k == 'netaddr' or k.startswith('netaddr.')]:
     del sys.modules[k]
 _plat, _has6 = sys.platform, socket.has_ipv6
-sys.platform = 'win32'
-socket.has_ipv6 = False
+if mode in ('fb', 'fb4'):
+    sys.platform = 'win32'
+if mode in ('fb', 'fb6'):
+    socket.has_ipv6 = False
 try:
     import netaddr
 finally:
@@ -193,10 +252,11 @@ finally:
     socket.has_ipv6 = _has6
 from netaddr.strategy import ipv4, ipv6
 from netaddr import fbsocket
-assert ipv4._inet_pton is fbsocket.inet_pton, 'ipv4 back-end is not fbsocket'
-assert ipv6._inet_pton is fbsocket.inet_pton, 'ipv6 pton back-end is not fbsocket'
-assert ipv6._inet_ntop is fbsocket.inet_ntop, 'ipv6 ntop back-end is not fbsocket'
-assert ipv6.OPT_IMPORTS is False
+assert (ipv4._inet_pton is fbsocket.inet_pton) == (mode in ('fb', 'fb4')), 'ipv4 back-end is not as asked'
+assert (ipv6._inet_pton is fbsocket.inet_pton) == (mode in ('fb', 'fb6')), 'ipv6 pton back-end is not as asked'
+assert (ipv6._inet_ntop is fbsocket.inet_ntop) == (mode in ('fb', 'fb6')), 'ipv6 ntop back-end is not as asked'
+assert ipv6.OPT_IMPORTS is (mode == 'fb4')
+assert ipv4._inet_aton is socket.inet_aton
 ''' + RUN_SRC + r'''
 def unj(x):
     if isinstance(x, dict):
@@ -216,7 +276,7 @@ for line in sys.stdin:
     sys.stdout.flush()
 '''
 
-_worker = None
+_workers = {}
 
 
 def _j(x):
@@ -227,37 +287,56 @@ def _j(x):
     return [_j(i) for i in x]
 
 
-def _get_worker():
-    global _worker
-    if _worker is None:
-        p = subprocess.Popen([sys.executable, '-c', WORKER_SRC, os.environ.get('NETADDR_REPO', '')],
+_worker_failed = {}
+
+
+def _get_worker(mode='fb'):
+    if mode in _worker_failed:
+        raise RuntimeError(_worker_failed[mode])     # do not start it again for every case
+    if mode not in _workers:
+        p = subprocess.Popen([sys.executable, '-c', WORKER_SRC, os.environ.get('NETADDR_REPO', ''), mode],
                              stdin=subprocess.PIPE, stdout=subprocess.PIPE, stderr=subprocess.PIPE,
                              universal_newlines=True, encoding='utf-8', errors='surrogatepass')
         first = p.stdout.readline()
         if not first.startswith('ready'):
             err = p.stderr.read()
-            raise RuntimeError('fallback back-end worker failed to start: %s' % err[-400:])
-        _worker = p
-        atexit.register(_stop_worker)
-    return _worker
+            _worker_failed[mode] = 'fallback back-end worker (%s) failed to start: %s' % (mode, err[-400:])
+            raise RuntimeError(_worker_failed[mode])
+        if not _workers:
+            atexit.register(_stop_worker)
+        _workers[mode] = p
+    return _workers[mode]
 
 
 def _stop_worker():
-    global _worker
-    if _worker is not None:
+    for mode in list(_workers):
+        w = _workers.pop(mode)
         try:
-            _worker.stdin.close()
-            _worker.wait(timeout=5)
+            w.stdin.close()
+            w.wait(timeout=5)
         except Exception:
-            _worker.kill()
-        _worker = None
+            w.kill()
 
 
-def run_fb(a):
-    w = _get_worker()
+def run_fb(a, mode='fb'):
+    w = _get_worker(mode)
     w.stdin.write(json.dumps(_j(a)) + '\n')
     w.stdin.flush()
     return w.stdout.readline().rstrip('\n')
+
+
+def _mode(a):
+    """which import configuration of netaddr a case runs under: None = as imported here"""
+    op = a[0]
+    if op == 'parse_raw':
+        return {('pl', 'pl'): None, ('fb', 'fb'): 'fb', ('fb', 'pl'): 'fb4', ('pl', 'fb'): 'fb6'}[(a[1], a[2])]
+    if op == 's2i_raw':
+        return None if a[2] == 'pl' else ('fb4' if a[1] == 4 else 'fb6')
+    if op == 'raw_call':
+        return None if a[2] == 'pl' else ('fb4' if a[1] in ('pton4', 'aton') else 'fb6')
+    if op == 'format':
+        return None if a[1] == 'pl' else 'fb6'
+    return 'fb' if a[1] == 'fb' else None
 
 
 # ------------------------------------------------------------------ independent reference code
@@ -722,6 +801,53 @@ def _fb_cases(s):
     return [Case('fb_pton 4 ' + t, 'fb_pton/4', ('fb_pton', 4, s)), Case('fb_pton 6 ' + t, 'fb_pton/6', ('fb_pton', 6, s))]
 
 
+BE2 = (('pl', 'pl'), ('fb', 'fb'), ('fb', 'pl'), ('pl', 'fb'))
+FMT_D = (None, 'compact', 'full', 'verbose', 'nowf', 'wfonly')
+
+
+def _raw_parse_cases(s, tag):
+    """IPAddress(s, ver, flags) under the four import configurations, exception class as raised"""
+    if not all(ord(c) < 128 for c in s):
+        return []
+    out = []
+    for be4, be6 in BE2:
+        for ver in (None, 4, 6):
+            for fl in (0, INET_PTON, ZEROFILL, ZEROFILL | INET_PTON):
+                out.append(Case('ip_parse_raw %s %s %s %s %d' % (be4, be6, hexs(s), optint(ver), fl),
+                                'parse_raw/%s%s/%s' % (be4, be6, tag), ('parse_raw', be4, be6, s, ver, fl)))
+    return out
+
+
+def _raw_s2i_cases(s, tag):
+    if not all(ord(c) < 128 for c in s):
+        return []
+    out = []
+    for fam in (4, 6):
+        for be in ('pl', 'fb'):
+            for fl in ((0, INET_PTON, ZEROFILL, ZEROFILL | INET_PTON) if fam == 4 else (0, ZEROFILL)):
+                out.append(Case('s2i_raw %d %s %s %d' % (fam, be, hexs(s), fl), 's2i_raw/%d/%s/%s' % (fam, be, tag),
+                                ('s2i_raw', fam, be, s, fl)))
+    return out
+
+
+def _raw_call_cases(s, tag):
+    if not all(ord(c) < 128 for c in s):
+        return []
+    t = hexs(s)
+    out = [Case('raw_call aton pl ' + t, 'raw_call/aton/' + tag, ('raw_call', 'aton', 'pl', s)),
+           Case('raw_call aton fb ' + t, 'raw_call/aton/' + tag, ('raw_call', 'aton', 'fb', s)),
+           Case('raw_call int pl ' + t, 'raw_call/int/' + tag, ('raw_call', 'int', 'pl', s))]
+    for fn in ('pton4', 'pton6'):
+        for be in ('pl', 'fb'):
+            out.append(Case('raw_call %s %s %s' % (fn, be, t), 'raw_call/%s/%s/%s' % (fn, be, tag), ('raw_call', fn, be, s)))
+    return out
+
+
+def _format_case(be6, ver, v, d, k):
+    return Case('ip_format %s %d %d %s' % (be6, ver, v, d or '-'), 'format/%s/%d/%s' % (be6, ver, d),
+                ('format', be6, ver, v, d, k))
+
+
 def corpus():
     """witnesses of the fixed findings F12 (fallback inet_pton) and F13 (ZEROFILL ValueError)"""
     out = []
@@ -736,6 +862,13 @@ def corpus():
     for be in ('pl', 'fb'):
         for ver, v in ((4, 0), (4, 0xC0000201), (6, 0), (6, 1), (6, 0xffff01020304), (6, M6)):
             out.append(Case('ip_repr %s %d %d' % (be, ver, v), 'repr/%s/%d' % (be, ver), ('repr', be, ver, v)))
+            for k, d in enumerate(FMT_D):
+                out.append(_format_case(be, ver, v, d, k))
+                out.append(_format_case(be, ver, v, d, k + 1))
+    # audit 2a finding 7: the class of the exception is the work of the try/except structure (F13 witnesses:
+    # int() failing in the ZEROFILL rewrite, an embedded NUL, a text only glibc / only fbsocket refuses)
+    for s in ['0x10.1.1.1', 'a.b.c.d', '1.2.3.4\x00', '\x00', '', '1.2.3.4 x', '::1\x00', '1__0.1', '1.2.3.4/x', ' 1::']:
+        out += _raw_parse_cases(s, 'corpus') + _raw_s2i_cases(s, 'corpus') + _raw_call_cases(s, 'corpus')
     return out
 
 
@@ -765,12 +898,15 @@ def generate(rng, tier):
         if rng.random() < 0.3:
             be = rng.choice(['pl', 'fb'])
             cases.append(Case('ip_repr %s 6 %d' % (be, v), 'repr/%s/6' % be, ('repr', be, 6, v)))
+        cases.append(_format_case(rng.choice(['pl', 'fb']), 6, v, rng.choice(FMT_D), rng.randrange(12)))
     for v in v4s:
         be = rng.choice(['pl', 'fb'])
         cases.append(Case('ip_repr %s 4 %d' % (be, v), 'repr/%s/4' % be, ('repr', be, 4, v)))
         be = rng.choice(['pl', 'fb'])
         cases.append(Case('ip_print %s 4 %d -' % (be, v), 'print/%s/4' % be, ('print', be, 4, v, None)))
         cases.append(Case('fb_ntop 4 %d' % v, 'fb_ntop/4', ('fb_ntop', 4, v)))
+        for d in rng.sample(FMT_D, 3):
+            cases.append(_format_case(rng.choice(['pl', 'fb']), 4, v, d, rng.randrange(12)))
         for be in ('pl', 'fb'):
             pver = rng.choice([None, 4])
             fl = rng.choice([0, INET_PTON, ZEROFILL])
@@ -807,12 +943,22 @@ def generate(rng, tier):
         if s in NEAR4 or s in NEAR6:
             cases += _parse_cases(s)
             cases += _valid_cases(s, 'near')
+            rp = _raw_parse_cases(s, 'near')
+            cases += rng.sample(rp, min(len(rp), 10))
+            rs = _raw_s2i_cases(s, 'near')
+            cases += rng.sample(rs, min(len(rs), 5))
+            cases += _raw_call_cases(s, 'near')
         else:
             allc = _parse_cases(s, tag='gen')
             cases += rng.sample(allc, min(len(allc), 5))
             vc = _valid_cases(s, 'gen')
             if vc:
                 cases += rng.sample(vc, 2)
+            rp = _raw_parse_cases(s, 'gen')
+            if rp:
+                cases += rng.sample(rp, 2)
+                cases.append(rng.choice(_raw_s2i_cases(s, 'gen')))
+                cases.append(rng.choice(_raw_call_cases(s, 'gen')))
         if (s in zfset or s in NEAR4) and all(ord(c) < 128 for c in s):
             cases += _zf_cases(rng, s)
     return cases
@@ -858,8 +1004,9 @@ def impl(c):
         if a[1] == 4:
             return hexs(fb.inet_ntop(fb.AF_INET, a[2].to_bytes(4, 'big')))
         return hexs(fb.inet_ntop(fb.AF_INET6, a[2].to_bytes(16, 'big')))
-    if a[1] == 'fb':
-        return run_fb(a)
+    mode = _mode(a)
+    if mode is not None:
+        return run_fb(a, mode)
     import netaddr
     return run_real(netaddr, a)
 
@@ -896,6 +1043,57 @@ def oracle(c, got):
             return None if got == mand else 'IPAddress(%r, %r, flags=%d) [%s] -> %s, expected %s' % (s, ver, fl, be, got, mand)
         return None if got in allowed else 'IPAddress(%r, %r, flags=%d) [%s] -> %s, expected one of %s' % (
             s, ver, fl, be, got, sorted(allowed))
+    if op == 'parse_raw':
+        _, be4, be6, s, ver, fl = a
+        mand, allowed = expect_parse(s, ver, fl)
+        where = 'IPAddress(%r, %r, flags=%d) [ipv4 back end %s, ipv6 back end %s]' % (s, ver, fl, be4, be6)
+        if mand is not None:
+            return None if got == mand else '%s -> %s, expected %s' % (where, got, mand)
+        return None if got in allowed else '%s -> %s, expected one of %s' % (where, got, sorted(allowed))
+    if op == 's2i_raw':
+        _, fam, be, s, fl = a
+        # str_to_int is below the '/' check of the constructor: hide a '/' from the reference constructor reading
+        mand, allowed = expect_parse(s.replace('/', '\x01'), fam, fl)
+        strip = lambda o: o if o.startswith('!') else o.split(' ', 1)[1]
+        where = 'strategy.ipv%d.str_to_int(%r, %d) [%s]' % (fam, s, fl, be)
+        if got.startswith('!') and got != '!addrFormat':
+            return '%s raised %s, a rejected address string raises AddrFormatError' % (where, got[1:])
+        if mand is not None:
+            return None if got == strip(mand) else '%s -> %s, expected %s' % (where, got, strip(mand))
+        return None if got in set(strip(o) for o in allowed) else '%s -> %s' % (where, got)
+    if op == 'raw_call':
+        _, fn, be, s = a
+        # values only: which class the platform raises is what the model is tied to, not a property clause
+        if got.startswith('!'):
+            v = None
+        else:
+            v = int(got)
+        if fn == 'pton4':
+            exp = ref_strict4(s)
+        elif fn == 'pton6':
+            exp = ref_rfc4291(s)
+        elif fn == 'int':
+            exp = ref_pyint10(s)
+        else:
+            exp = ref_aton(s, junk=True)
+        return None if v == exp else '%s(%r) [%s] -> %s, reference reading %r' % (fn, s, be, got, exp)
+    if op == 'format':
+        _, be6, ver, v, d, k = a
+        if d == 'nowf':
+            exp = '!type'
+        elif ver == 4:
+            exp = hexs(ref_quad(v))
+        elif d == 'wfonly':
+            exp = '!value'
+        else:
+            exp = hexs(ref_print(6, v, d))
+        if got != exp:
+            return 'IPAddress(%#x, %d).format(<%s #%d>) [%s] -> %s, expected %s' % (
+                v, ver, d, k, be6, got if got.startswith('!') else repr(_unhex(got)),
+                exp if exp.startswith('!') else repr(_unhex(exp)))
+        if not got.startswith('!') and std_parse(_unhex(got)) != (ver, v):
+            return 'IPAddress(%#x, %d).format(%s) = %r; the standard parser reads %r' % (v, ver, d, _unhex(got), std_parse(_unhex(got)))
+        return None
     if op == 'valid4':
         _, be, s, fl = a
         if s == '':
@@ -971,6 +1169,17 @@ def repro(c):
             a[3], a[2], 'ipv6_' + a[4] if a[4] and a[2] == 6 else 'None', a[5], a[6]) + note
     if a[0] == 'repr':
         return pre + 'repr(IPAddress(%d, %d))' % (a[3], a[2]) + note
+    if a[0] == 'parse_raw':
+        return pre + 'IPAddress(%r, %r, flags=%d)  # ipv4 back end %s (fb: sys.platform="win32" at import), ipv6 back end %s (fb: socket.has_ipv6=False at import)' % (a[3], a[4], a[5], a[1], a[2])
+    if a[0] == 's2i_raw':
+        return 'from netaddr.strategy import ipv%d as m; m.str_to_int(%r, %d)  # back end %s' % (a[1], a[3], a[4], a[2])
+    if a[0] == 'raw_call':
+        call = {'aton': 'm4._inet_aton(%r)', 'pton4': 'm4._inet_pton(m4.AF_INET, %r)', 'pton6': 'm6._inet_pton(m6.AF_INET6, %r)',
+                'int': 'int(%r)'}[a[1]] % (a[3],)
+        return 'from netaddr.strategy import ipv4 as m4, ipv6 as m6; ' + call + '  # back end %s' % a[2]
+    if a[0] == 'format':
+        arg = {None: 'None', 'nowf': 'object', 'wfonly': 'mac_unix'}.get(a[4], 'ipv6_%s' % a[4])
+        return pre + 'IPAddress(%d, %d).format(%s)  # dialect variant %d, ipv6 back end %s' % (a[3], a[2], arg, a[5], a[1])
     if a[0] == 'zf_rewrite':
         return "'.'.join(['%%d' %% int(i) for i in %r.split('.')])" % (a[1],)
     if a[0] == 'valid4':
